@@ -190,7 +190,155 @@ func walMonitor(hr *HistoryRun) []crashFinding {
 	return w.violations
 }
 
+// ---- concurrent executions (Engine C): the same monitor over the I/O trace of every schedule -----------------
+
+// c08ConcScenarios: two (three) goroutines, each one explicit writing transaction (update of its own row or
+// insert), pools of 32 and 10 frames (the small pool evicts while the others append log records).
+func c08ConcScenarios(thorough bool) []*core.Scenario {
+	k := func(v int) any { return int32(v) }
+	upd := func(tag string, key int) *Stmt {
+		return &Stmt{Kind: "update", Table: "t", Set: []SetItem{{"v", tag}}, Where: Leaf{"k", "=", k(key)}}
+	}
+	ins := func(key int, v string) *Stmt {
+		return &Stmt{Kind: "insert", Table: "t", Cols: []string{"k", "v"}, Rows: [][]any{{k(key), v}}}
+	}
+	type sc struct {
+		name  string
+		memKB int
+		wide  bool
+		th    [][]*Stmt
+	}
+	list := []sc{
+		{"update(1)||update(3)", 128, false, [][]*Stmt{{upd("w1", 1)}, {upd("w2", 3)}}},
+		{"insert||update", 128, false, [][]*Stmt{{ins(7, "n1")}, {upd("w2", 3)}}},
+		{"wide-insert||wide-insert/10-frames", 40, true, [][]*Stmt{{ins(11, bigStr("A", 600))}, {ins(12, bigStr("B", 600))}}},
+	}
+	if thorough {
+		list = append(list, sc{"update||update||insert", 128, false, [][]*Stmt{{upd("w1", 1)}, {upd("w2", 3)}, {ins(7, "n3")}}})
+	}
+	var out []*core.Scenario
+	for _, x := range list {
+		x := x
+		out = append(out, &core.Scenario{
+			Name: "c08/conc/" + x.name, Bound: 1, Params: x.name,
+			TolerateDivergence: x.memKB < 64,
+			Setup: func() *core.Harness {
+				dir := NewDir("c08c")
+				path := dir + "/d"
+				db, rec, f := OpenRecorded(path, x.memKB, false)
+				if f != nil {
+					panic(f.String())
+				}
+				td := sqlTable()
+				db.MustAuto(td.CreateSQL())
+				if x.wide {
+					for i := 1; i <= 7; i++ {
+						db.MustAuto(ins(i, bigStr(fmt.Sprintf("s%d", i), 600)).SQL())
+					}
+				} else {
+					for _, st := range sqlSeed3() {
+						db.MustAuto(st.SQL())
+					}
+				}
+				hr := &HistoryRun{MemKB: x.memKB, HeapPages: map[int32]bool{}, Writers: map[int]bool{}, TxnIDs: map[int]int32{}, dir: dir}
+				hr.Base = readImage(path)
+				rec.On = true
+				fails := make([]string, len(x.th))
+				h := &core.Harness{}
+				for ti := range x.th {
+					ti := ti
+					h.Names = append(h.Names, fmt.Sprintf("W%d", ti))
+					h.Threads = append(h.Threads, func() {
+						t := db.Begin()
+						hr.TxnIDs[ti+1] = int32(t.T.GetTransactionID())
+						for _, st := range x.th[ti] {
+							r := t.Exec(st.SQL())
+							if r.Fail != nil || r.Err != "" {
+								fails[ti] = fmt.Sprintf("%+v", r)
+								return
+							}
+							if r.Aborted {
+								t.Abort()
+								return
+							}
+						}
+						hr.Writers[ti+1] = len(t.T.GetWriteSet()) > 0
+						if f := t.Commit(); f != nil {
+							fails[ti] = f.String()
+							return
+						}
+						rec.Mark(fmt.Sprintf("commit-return %d", ti+1))
+					})
+				}
+				h.Check = func(xi *core.ExecInfo) (*core.Violation, string) {
+					mk := func(clause, detail string) *core.Violation {
+						return &core.Violation{Property: "C08", Signature: "wal/conc/" + clause + "/" + x.name, Detail: x.name + "\n" + detail}
+					}
+					if len(xi.Panics) > 0 {
+						return mk("panic@"+panicSite(xi.Panics[0]), strings.Join(xi.Panics, "\n")), "panic"
+					}
+					if xi.Deadlock {
+						return mk("deadlock", fmt.Sprintf("%v", xi.Blocked)), "deadlock"
+					}
+					for ti, fl := range fails {
+						if fl != "" {
+							return mk("statement-failed", fmt.Sprintf("W%d: %s", ti, fl)), "failed"
+						}
+					}
+					rec.On = false
+					hr.Events = rec.Events
+					guard(func() {
+						for _, tm := range db.Cat().GetAllTables() {
+							if *tm.GetTableName() == "columns_catalog" {
+								continue
+							}
+							pid := tm.Table().GetFirstPageID()
+							for n := 0; pid.IsValid() && n < 256; n++ {
+								hr.HeapPages[int32(pid)] = true
+								pg := db.BPM().FetchPage(pid)
+								if pg == nil {
+									break
+								}
+								next := access.CastPageAsTablePage(pg).GetNextPageID()
+								db.BPM().UnpinPage(pid, false)
+								pid = next
+							}
+						}
+					})
+					fs := walMonitor(hr)
+					if len(fs) > 0 {
+						return mk(fs[0].Clause, fs[0].Detail), fs[0].Clause
+					}
+					return nil, fmt.Sprintf("ok:log-writes=%d", countKind(hr.Events, 'L'))
+				}
+				h.Cleanup = func() { db.Kill(); removeAll(dir) }
+				return h
+			},
+		})
+	}
+	return out
+}
+
+func countKind(evs []IOEvent, k byte) int {
+	n := 0
+	for _, e := range evs {
+		if e.Kind == k {
+			n++
+		}
+	}
+	return n
+}
+
 func c08Run(c *core.Ctx) {
+	for _, sc := range c08ConcScenarios(c.Thorough()) {
+		if c.Expired() {
+			break
+		}
+		if c.Thorough() {
+			sc.Bound = 2
+		}
+		core.ExploreSched(c, sc)
+	}
 	res := c.Res
 	seeds := crashSeeds(c.Thorough())
 	item := 0
@@ -256,12 +404,27 @@ func init() {
 		Run: c08Run,
 		Replay: func(raw json.RawMessage) (string, bool) {
 			var rp struct {
-				Seed   string `json:"seed"`
-				Idx    int    `json:"history_index"`
-				Thor   bool   `json:"thorough_enumeration"`
-				Clause string `json:"clause"`
+				Seed     string `json:"seed"`
+				Idx      int    `json:"history_index"`
+				Thor     bool   `json:"thorough_enumeration"`
+				Clause   string `json:"clause"`
+				Scenario string `json:"scenario"`
+				Choices  []int  `json:"choices"`
 			}
 			json.Unmarshal(raw, &rp)
+			if rp.Scenario != "" {
+				for _, sc := range c08ConcScenarios(true) {
+					if sc.Name == rp.Scenario {
+						x, v, out, div := core.RunSchedule(sc, rp.Choices)
+						desc := fmt.Sprintf("%s: schedule of %d points -> %s %s", sc.Name, len(x.Trace), out, div)
+						if v != nil {
+							return desc + "\n" + v.Detail, true
+						}
+						return desc, false
+					}
+				}
+				return "scenario not found: " + rp.Scenario, false
+			}
 			for _, seed := range crashSeeds(rp.Thor) {
 				if seed.Name != rp.Seed {
 					continue
